@@ -136,7 +136,8 @@ def parseSelect (E : Ext) : Nat → Str → Out (Q × Str)
         | .ok (cs, q) =>
           -- `parse_subqueries`
           if (trimStart q).head? = some '{' then
-            match subLoop E f q [] with
+            -- (white space before the brace is stripped first)
+            match subLoop E f (trimStart q) [] with
             | .ok (subs, r) => .ok (.mk optional ty name cs subs, r)
             | .err m => .err m
             | .panic m => .panic m
